@@ -4,7 +4,7 @@ import random
 from haiway import MISSING
 
 from harness.legs import cfg_text, leg_m, leg_mutant, leg_r
-from props.values_common import is_frozen, make_class, py_to_val, val_to_py
+from props.values_common import is_frozen, make_class, make_generic, py_to_val, val_to_py
 
 SPEC = "Values"
 MANIFEST = dict(
@@ -26,11 +26,17 @@ INVS = ["ExactlyConforming", "NormConforms", "NormIdempotent", "Faithful", "Stor
 NOVAL = dict(k="nothing", v=0, xs=())
 
 
-def construct(ann, val, use_default):
+def construct(ann, val, use_default, generic=False):
     """-> observation [acc, stored]"""
     try:
         pyval = val_to_py(val)
-        if use_default:
+        if generic:
+            try:
+                cls = make_generic(ann)
+            except Exception:  # noqa: BLE001  - an annotation that cannot be a type argument: plain holder instead
+                cls = make_class(ann)
+            inst = cls(x=pyval)
+        elif use_default:
             cls = make_class(ann, default=pyval)
             inst = cls()
         else:
@@ -54,10 +60,11 @@ class ValuesDriver:
         self.ann, self.val = init["ann"], init["val"]
         ValuesDriver.n += 1
         self.use_default = (ValuesDriver.n % 3 == 0) and self.val["k"] != "missing"
+        self.generic = ValuesDriver.n % 3 == 1
 
     def apply(self, name, args):
         assert name == "Construct"
-        return construct(self.ann, self.val, self.use_default)
+        return construct(self.ann, self.val, self.use_default, self.generic)
 
     def close(self):
         pass
@@ -86,7 +93,8 @@ def run(rep, work, tier, seed):
         "Optional, a plain type alias; old typing.List-style and bare generics are out of scope",
         "contested points (accepted either way): ==-equal Literal member of another type, list for tuple[...], str/bytes "
         "for Sequence[...]; NaN excluded",
-        "every third pair supplies the value as the class default instead of as a constructor argument",
+        "every third pair supplies the value as the class default instead of as a constructor argument, every third "
+        "pair goes through a generic holder specialised with the annotation (GHolder[annotation])",
     ]
     return rep.finish(exhaustive=True,
                       rule="every (annotation term, value term) pair of the bounded sets is one initial state; one Construct "
